@@ -3,7 +3,7 @@
 # Runs the quick check of <check-prop> (default <prop>) against seeded/<prop>-m<idx>/patch.diff in a
 # scratch worktree and records the outcome in seeded/<prop>-m<idx>/detection.txt
 prop=$1; idx=$2; cp=${3:-$1}; shift; shift; [ $# -gt 0 ] && shift
-dir=/verif/seeded/$prop-m$idx
+dir=/verif/seeded/$prop-${SEED_PREFIX:-m}$idx
 [ -f $dir/patch.diff ] || { echo "no $dir/patch.diff"; exit 9; }
 s=$(date +%s)
 out=$(/verif/tools/run_mutant.sh $dir/patch.diff $cp "$@" 2>&1)
